@@ -501,17 +501,25 @@ def _parse_transf_v33(raw, system, max_bus):
             Vn1 = data[2][1] if data[2][1] != 0.0 else bus_Vn1
             Vn2 = data[3][1] if data[3][1] != 0.0 else bus_Vn2
             transf = True
-            tap = data[2][0]  # pu or in kV
             phi = data[2][2] * deg2rad  # `ANG1` is entered in degree; convert to rad
             rate_a = data[2][3]
             rate_b = data[2][4]
             rate_c = data[2][5]
 
             # CW - Winding I/O code, 1-turn ratio on pu bus base kV, 2: winding V, 3: turn ratio pu on norn wind V
+            # `tap1` and `tap2` are the turns ratios of the two windings in pu of the bus base voltages
             if data[0][4] == 2:
-                tap = (data[2][0] / bus_Vn1) / (data[3][0] / bus_Vn2)
+                tap1 = data[2][0] / bus_Vn1
+                tap2 = data[3][0] / bus_Vn2
             elif data[0][4] == 3:
-                tap = tap * (Vn1 / bus_Vn1) / (Vn2 / bus_Vn2)
+                tap1 = data[2][0] * (Vn1 / bus_Vn1)
+                tap2 = data[3][0] * (Vn2 / bus_Vn2)
+            else:
+                tap1 = data[2][0]
+                tap2 = data[3][0]
+
+            # bus I - (tap1 : 1) - Z - (1 : tap2) - bus J is a tap of `tap1 / tap2` at bus I and `Z * tap2 ** 2`
+            tap = tap1 / tap2
 
             # CZ - Z code, 1-system base, 2-winding base, 3-load loss and |z|
             if data[0][5] == 1:
@@ -529,8 +537,8 @@ def _parse_transf_v33(raw, system, max_bus):
                      'bus2': data[0][1],
                      'u': data[0][11],
                      'b': data[0][8],
-                     'r': data[1][0],
-                     'x': data[1][1],
+                     'r': data[1][0] * tap2 ** 2,
+                     'x': data[1][1] * tap2 ** 2,
                      'trans': transf,
                      'tap': tap,
                      'phi': phi,
